@@ -8,6 +8,8 @@
 #include <string.h>
 #include "spec/ghost.h"
 int model_snprintf(char *out, size_t size, const char *fmt, ...);
+long model_strtol(const char *s, char **end, int base);
+unsigned long model_strtoul(const char *s, char **end, int base);
 static unsigned long rs = 88172645463325252ul;
 static unsigned rnd(void) { rs ^= rs << 13; rs ^= rs >> 7; rs ^= rs << 17; return (unsigned)(rs >> 11); }
 static int check(const char *s)
@@ -53,6 +55,14 @@ int main(void)
         int x = model_snprintf(a, sz, "k %d %u %x_%x %#x %lu %s %c %%", d, u, u, (unsigned)d, u % 3 ? u : 0, lu, "str", 'z');
         int y = snprintf(b, sz, "k %d %u %x_%x %#x %lu %s %c %%", d, u, u, (unsigned)d, u % 3 ? u : 0, lu, "str", 'z');
         if (x != y || strcmp(a, b)) { printf("PRINTF MISMATCH '%s' vs '%s' (%d,%d)\n", a, b, x, y); bad++; break; }
+    }
+    for (n = 0; n < 2000000; n++) {
+        static const char al[] = "0123456789abcdefxXF -+_g\t";
+        char t[28], *e1, *e2; unsigned len = rnd() % 26, k; int base = (n & 1) ? 16 : 10;
+        for (k = 0; k < len; k++) t[k] = al[rnd() % (sizeof(al) - 1)];
+        t[len] = 0;
+        if (model_strtol(t, &e1, base) != strtol(t, &e2, base) || e1 != e2) { printf("STRTOL MISMATCH '%s' base %d\n", t, base); bad++; break; }
+        if (model_strtoul(t, &e1, base) != strtoul(t, &e2, base) || e1 != e2) { printf("STRTOUL MISMATCH '%s' base %d\n", t, base); bad++; break; }
     }
     printf(bad ? "spec selftest FAILED\n" : "spec selftest ok\n");
     return bad != 0;
